@@ -118,6 +118,13 @@ CHECKS.update({
    note="AST equality uses mimium's own structural print with spans erased. Indent size fixed at the default. The formatter is known to be experimental: many productions have open findings, each keyed on the production that triggers it.",
    design="4/C14"),
 })
+CHECKS.update({
+ "C19": dict(
+   technique="stateless exploration of thread interleavings of the real compiler under a hand-rolled controlled (baton) scheduler with scheduling points (cfg-guarded hooks) before every access to process-global shared state; preemption-bounded (0, 1, partially 2) (shape S)",
+   text="Two OS threads each compile and run one program from a menu built to collide (identical sources, shared identifiers, syntax error, type error, macro expansion, a 64 KiB identifier, type declarations); only one thread runs at a time and control can change hands only at scheduling points placed before every use of the interner, the macro-file environment variable and the diagnostics file cache. Both serial orders and every single preemption (quick: at every 16th point; thorough: at every point, plus a sparse second preemption) are executed; in every schedule each thread must obtain exactly the diagnostics and outputs it obtains alone, with no panic and no deadlock.",
+   note="Sequentially consistent interleavings at hook granularity only; loom/shuttle cannot intercept std::sync inside mimium-lang and do not finish on ~7000 lock operations per job, hence the hand-rolled scheduler. Unsynchronised memory effects (the transmuted &str from Symbol::as_str vs. reallocation of the interner buffer) are outside what a cooperative scheduler can observe and no sanitizer pass is included. Point numbering jitters slightly between executions (HashMap seeds).",
+   design="4/C19"),
+})
 NOT_YET = {}
 
 def main():
